@@ -20,15 +20,17 @@ type prioRoles struct {
 	sr  *schedRoles
 	key string
 
-	sendFn       *ssa.Function
-	sendPrioIdx  int // parameter of sendFn that becomes the Priority tag
-	resetFn      *ssa.Function
-	safeDivideFn *ssa.Function
-	sumFn        *ssa.Function // plain sum of a distribution
-	vacantsFn    *ssa.Function
-	topUpFn      *ssa.Function
-	decActualFn  *ssa.Function
-	releaseRole  string
+	sendFn        *ssa.Function
+	sendPrioIdx   int // parameter of sendFn that becomes the Priority tag
+	resetFn       *ssa.Function
+	safeDivideFn  *ssa.Function
+	sumFn         *ssa.Function // plain sum of a distribution
+	vacantsFn     *ssa.Function // the helper returning H - sum(actual), or the function that computes it in place
+	vacantsExprs  []*ssa.BinOp  // the subtraction(s) H - sum(actual)
+	vacantsInline bool          // the subtraction is written in place (vacantsFn does more than return it)
+	topUpFn       *ssa.Function
+	decActualFn   *ssa.Function
+	releaseRole   string
 }
 
 func (pr *prioRoles) String() string {
@@ -187,27 +189,60 @@ func resolvePrio(p *Prog) (*prioRoles, error) {
 			}
 		}
 	}
-	// vacants producer: the call whose result is handed to the top-up as its last argument;
-	// sum helper: the function the producer applies to the actual map
-	if pr.topUpFn != nil {
-		for _, cs := range p.CallSites(pr.topUpFn) {
-			args := cs.Common().Args
-			v := stripChangeType(args[len(args)-1])
-			if ex, ok := v.(*ssa.Extract); ok {
-				v = ex.Tuple
-			}
-			if call, ok := v.(*ssa.Call); ok && p.IsProduct(p.Callee(call)) {
-				pr.vacantsFn = p.Callee(call)
+	// vacants: the subtraction HandlersQuantity - sum(actual), wherever it is written; the sum helper
+	// is the function it applies to the actual map
+	for _, fn := range pr.rt.Funcs {
+		for _, b := range fn.Blocks {
+			for _, in := range b.Instrs {
+				bo, ok := in.(*ssa.BinOp)
+				if !ok || bo.Op != token.SUB {
+					continue
+				}
+				if _, path, okp := deepStrip(p.Sym(bo.X)).FieldPath(); !okp || !strings.HasSuffix(strings.Join(path, "."), "HandlersQuantity") {
+					continue
+				}
+				y := stripChangeType(bo.Y)
+				if ex, isEx := y.(*ssa.Extract); isEx && ex.Index == 0 {
+					y = ex.Tuple
+				}
+				call, isCall := y.(*ssa.Call)
+				if !isCall || len(call.Call.Args) != 1 || !p.isFieldLoad(call.Call.Args[0], "actual") || !p.IsProduct(p.Callee(call)) {
+					continue
+				}
+				pr.vacantsExprs = append(pr.vacantsExprs, bo)
+				pr.sumFn = p.Callee(call)
+				pr.vacantsFn = fn
 			}
 		}
 	}
 	if pr.vacantsFn != nil {
+		// a pure helper returns the subtraction (v1: with an error); anything else computes it in place
+		pr.vacantsInline = false
 		for _, b := range pr.vacantsFn.Blocks {
-			for _, in := range b.Instrs {
-				if call, ok := in.(*ssa.Call); ok && len(call.Call.Args) == 1 && p.isFieldLoad(call.Call.Args[0], "actual") && p.IsProduct(p.Callee(call)) {
-					pr.sumFn = p.Callee(call)
+			ret, ok := b.Instrs[len(b.Instrs)-1].(*ssa.Return)
+			if !ok || b == pr.vacantsFn.Recover {
+				continue
+			}
+			vals := returnedValues(ret)
+			if len(vals) == 0 {
+				pr.vacantsInline = true
+				continue
+			}
+			isExpr := false
+			for _, e := range pr.vacantsExprs {
+				if stripChangeType(vals[0]) == ssa.Value(e) {
+					isExpr = true
 				}
 			}
+			if k, isK := symConstInt(p.Sym(vals[0])); isK && k == 0 {
+				isExpr = true // error path
+			}
+			if !isExpr {
+				pr.vacantsInline = true
+			}
+		}
+		if len(pr.vacantsExprs) != 1 {
+			pr.vacantsInline = true
 		}
 	}
 	var missing []string
@@ -280,3 +315,95 @@ func isUintMap(t types.Type) bool {
 }
 
 var _ = token.ADD
+
+// asDivision: call is a checked division of the tactic map - the checked-division helper itself,
+// or a private wrapper that hands one of its parameters to it as the dividend (a helper that
+// resets the map and divides). Returns the dividend and the priority list as seen at the call.
+func (pr *prioRoles) asDivision(call *ssa.Call) (dividend, list ssa.Value, ok bool) {
+	p := pr.p
+	cal := p.Callee(call)
+	if cal == nil {
+		return nil, nil, false
+	}
+	args := call.Call.Args
+	if cal == pr.safeDivideFn {
+		if len(args) == 4 {
+			return args[2], args[1], true
+		}
+		return nil, nil, false
+	}
+	if !p.IsProduct(cal) || cal == pr.sendFn || cal == pr.topUpFn {
+		return nil, nil, false
+	}
+	var inner *ssa.Call
+	n := 0
+	for _, b := range cal.Blocks {
+		for _, in := range b.Instrs {
+			if c2, isCall := in.(*ssa.Call); isCall && p.Callee(c2) == pr.safeDivideFn && len(c2.Call.Args) == 4 {
+				inner = c2
+				n++
+			}
+		}
+	}
+	if n != 1 {
+		return nil, nil, false
+	}
+	through := func(v ssa.Value) ssa.Value {
+		if par, isPar := stripChangeType(v).(*ssa.Parameter); isPar {
+			if i := paramIndex(cal, par); i >= 0 && i < len(args) {
+				return args[i]
+			}
+		}
+		return nil
+	}
+	d := through(inner.Call.Args[2])
+	if d == nil {
+		return nil, nil, false
+	}
+	l := through(inner.Call.Args[1])
+	return d, l, true
+}
+
+// vacantsValue: v is the number of vacant handlers - the result of the helper or the subtraction itself.
+// It returns the instruction that produced it (for identity in typestate rules).
+func (pr *prioRoles) vacantsValue(v ssa.Value) (ssa.Instruction, bool) {
+	v = stripChangeType(v)
+	for _, e := range pr.vacantsExprs {
+		if v == ssa.Value(e) {
+			return e, true
+		}
+	}
+	if ex, ok := v.(*ssa.Extract); ok && ex.Index == 0 {
+		v = ex.Tuple
+	}
+	if call, ok := v.(*ssa.Call); ok && !pr.vacantsInline && pr.p.Callee(call) == pr.vacantsFn {
+		return call, true
+	}
+	return nil, false
+}
+
+// vacantsSites: where the vacants value becomes available in a function: (function, value).
+func (pr *prioRoles) vacantsSites() []ssa.Value {
+	var out []ssa.Value
+	if pr.vacantsInline {
+		for _, e := range pr.vacantsExprs {
+			out = append(out, e)
+		}
+		return out
+	}
+	for _, cs := range pr.p.CallSites(pr.vacantsFn) {
+		if cs.Value() == nil {
+			continue
+		}
+		vac := ssa.Value(cs.Value())
+		if cs.Value().Type().String() != "uint" {
+			for _, ref := range *cs.Value().Referrers() {
+				if ex, ok := ref.(*ssa.Extract); ok && ex.Index == 0 {
+					vac = ex
+				}
+			}
+		}
+		out = append(out, vac)
+	}
+	return out
+}
